@@ -61,7 +61,8 @@ AddRoute(a, r, ms) ==
 AddMount(a, pre, b) ==
   /\ ~done /\ Placed(a) /\ b > a /\ b \notin mountedSet /\ b = 2 + Cardinality(mountedSet)
   /\ ParamsAbove(a) + NParams(pre) =< 2
-  /\ apps' = [apps EXCEPT ![a].items = Append(@, [t |-> "mount", segs |-> pre, methods |-> <<>>, local |-> <<>>, h |-> 0, app |-> b])]
+  /\ LET ap == [apps EXCEPT ![a].items = Append(@, [t |-> "mount", segs |-> pre, methods |-> <<>>, local |-> <<>>, h |-> 0, app |-> b])] IN
+     Buildable(ap) /\ apps' = ap      \* (merging even an empty application creates the nodes of the prefix in every tree)
   /\ mountedSet' = mountedSet \cup {b} /\ UNCHANGED <<nextH, pol, done>>
 \* (a child is mounted as soon as it is declared and filled afterwards: the application VALUE is the same as when the
 \*  child is written first; the model and the harness both build recursively from the final value.  A route added to
